@@ -11,6 +11,7 @@ type Profile struct {
 	NullProb    float64 // probability that a pointer / optional field is nil / zero
 	MaxLen      int     // max slice length
 	SmallDomain bool    // few distinct values (dictionary hits, RLE runs)
+	LongLists   bool    // some slices get 600-2100 elements (more than any internal chunk size)
 	RunLen      int     // if > 0, null/non-null decisions are made in runs of about this length
 	runLeft     map[string]int
 	runNull     map[string]bool
@@ -93,12 +94,30 @@ func Fill(r *rand.Rand, v reflect.Value, p *Profile, path string, isOptional boo
 			n = 0 // empty, non-nil
 		default:
 			n = 1 + r.Intn(p.MaxLen)
+			if p.LongLists && r.Intn(3) == 0 {
+				n = []int{513, 600, 1100, 2100}[r.Intn(4)]
+			}
 		}
 		s := reflect.MakeSlice(v.Type(), n, n)
 		for i := 0; i < n; i++ {
 			Fill(r, s.Index(i), p, path+"[]", false)
 		}
 		v.Set(s)
+	case reflect.Map:
+		k := r.Intn(5)
+		if k == 0 {
+			v.Set(reflect.Zero(v.Type()))
+			return
+		}
+		m := reflect.MakeMap(v.Type())
+		for i := 0; i < k-1; i++ {
+			key := reflect.New(v.Type().Key()).Elem()
+			key.SetString([]string{"a", "b", "k1", "k2", "zz", ""}[r.Intn(6)])
+			val := reflect.New(v.Type().Elem()).Elem()
+			Fill(r, val, p, path+"{}", false)
+			m.SetMapIndex(key, val)
+		}
+		v.Set(m)
 	case reflect.Array:
 		if isOptional && p.null(r, path) {
 			v.Set(reflect.Zero(v.Type()))
